@@ -71,7 +71,7 @@ Lemma tfun_complete kd f : forall l e, e <> EMore -> complete (tfun kd f l e).
 Proof.
   induction l as [|v l IH]; intros e H; cbn. exact H.
   destruct (fn_apply f v) as [r|]; auto with cpl.
-  destruct kd; auto with cpl; destruct r as [?|[|]|?|?]; auto with cpl.
+  destruct kd; auto with cpl; destruct r as [?|[|]|?|?|]; auto with cpl.
 Qed.
 Lemma tun_complete o : forall l e, e <> EMore -> complete (tun o l e).
 Proof.
